@@ -64,6 +64,13 @@ KNOWN = [
                   'as `// ` again: fmt(fmt(x)) != fmt(x).  Shipped files with blank comment lines '
                   '(std/functional.ucg, std/strings.ucg, ...) flip on every run',
          clause='(3) formatting formatted text returns it unchanged (comments on lines of their own between statements)'),
+    dict(tag='indented_comment_group',
+         input='let m = module {} => {\nlet a = 1;\n// c1\n// c2\nlet b = 2;\n};',
+         observed='first pass: `    let a = 1;\\n    \\n    // c1\\n    // c2\\nlet b = 2;` (the group stays together, indented); second pass puts an '
+                  'empty line between `// c1` and `// c2` (consecutive comment lines are only read as one group when they start in column 1), '
+                  'stable from then on.  Any group of >= 2 comment lines between the statements of a module body; the same happens to groups '
+                  'before tuple fields / list elements (`{\\n// c1\\n// c2\\n a = 1}`), which the statement does not cover',
+         clause='(3) formatting formatted text returns it unchanged (comments on lines of their own between statements -- here of a module body)'),
 ]
 KNOWN_TAGS = set(k['tag'] for k in KNOWN)
 
@@ -133,6 +140,9 @@ def comments_between_statements(src):
 
 POS = re.compile(r'Position \{ file: (?:None|Some\("(?:[^"\\]|\\.)*"\)), line: \d+, column: \d+, offset: \d+ \}')
 TOK = re.compile(r'Token \{ typ: (?:QUOTED|BAREWORD|BOOLEAN), fragment:')
+
+
+INDENTED_GROUP = re.compile(r'^[ \t]+//[^\n]*\n[ \t]+//', re.M)      # two consecutive indented comment lines
 
 
 def norm_ast(a):
@@ -277,6 +287,8 @@ def check_family(name, bound, cases, generated, collect=None):
         if not comments_between_statements(out):
             continue
         if known('blank_comment') and '' in co:
+            continue
+        if known('indented_comment_group') and INDENTED_GROUP.search(''.join('""' if k == 'str' else t for k, t in regions(out))):
             continue
         elig.append((i, c, out))
     f2 = fmt_all([o for i, c, o in elig])
